@@ -17,13 +17,16 @@ see report / checks/C22.py header in the repository history
 """
 
 
-def classify(ev):
+def classify(ev, opened=None):
     """key of a rejected Query event for known-findings matching"""
     if ev.get("e") != "Query":
         return None
     conf = ev.get("conf", "")
     if " key()" in conf:
         return "emptykey-table"
+    k = relcommon.semijoin_rev_key(ev.get("err"), ev.get("plan"))
+    if k:
+        return k
     def whole_below(n, top):
         return n.get("op") == "summarize" and n.get("whole") and not top
     def whole_under_other(ast):
